@@ -4,10 +4,18 @@
   CBOR instance proved in full against the specification SF/Cbor/Cst.lean (grammar `Item`,
   `wire`, executable reference decoder `decode` — independent of the library's parser);
   UBJSON / JSON: executable mirror + correspondence + oracle (see evidence).
+
+  UBJSON ENCODER (namespace `SF.PropsUbj.C07`): for every contract-conforming tree (also with
+  extended events) the bytes are the wire form of a well-formed UBJSON item, the reference
+  decoder reads them back as exactly one value, equal to the tree's value up to the documented
+  representation change (unsigned above MaxInt64 ↦ high-precision string), exactly equal
+  otherwise; and the specification's own round trip `decode ∘ wire = value`.
 -/
 import SF.Proofs.CborEnc
 import SF.Proofs.CborDecode
 import SF.Props.C01
+import SF.Proofs.UbjEncTop
+import SF.Proofs.UbjApproxOracle
 namespace SF.Props.C07
 open SF SF.Cbor SF.Cbor.Cst SF.Props.C01
 
@@ -32,3 +40,40 @@ example : (decode (cborBytes exT)).toOption.map (fun r => r.1.value == exT.value
   decide +kernel
 
 end SF.Props.C07
+
+/-! ## UBJSON encoder (SF/Ubjson/Enc.lean; proofs SF/Proofs/Ubj*.lean) -/
+
+namespace SF.PropsUbj.C07
+open SF SF.Ubjson SF.Ubjson.Enc SF.Ubjson.Wire
+open SF.Cbor.Enc (small)
+open SF.Props.UbjEnc
+
+/-- C07 / C01 for UBJSON: for EVERY contract-conforming event tree the encoder's bytes are the
+wire form of a well-formed item, the reference decoder accepts them — consuming every byte — as
+exactly one value, which is the tree's value up to `approx` (= the oracle's `approxUbj`), and
+EXACTLY the tree's value when no number exceeds MaxInt64 -/
+theorem ubj_output_valid (t : ETree) (hw : t.wf = true) (hs : small t = true) :
+    ∃ i : UItem, i.ok = true ∧ ubjBytes t = i.wire ∧
+      Cst.decodeStream (ubjBytes t) = .ok [i.value] ∧
+      approx t.value i.value = true ∧ (noBig t = true → i.value = t.value) :=
+  SF.Props.UbjEnc.ubj_output_valid t hw hs
+
+/-- … and for documents mixing basic and extended events -/
+theorem ubj_output_valid_ext (T : XTree) (hl : T.leavesOk = true) (hw : T.expand.wf = true)
+    (hs : small T.expand = true) :
+    build (expandAll T.events) = some T.expand.value ∧ WF1 (expandAll T.events) = true ∧
+    ∃ i : UItem, i.ok = true ∧ encAll T.events = i.wire ∧
+      Cst.decodeStream (encAll T.events) = .ok [i.value] ∧
+      approx T.expand.value i.value = true ∧ (noBig T.expand = true → i.value = T.expand.value) :=
+  SF.Props.UbjEnc.ubj_output_valid_ext T hl hw hs
+
+/-- the specification's own round trip for the UBJSON grammar (plain, counted and typed
+containers, any length marker): `decode ∘ wire = value` -/
+theorem ubj_spec_roundtrip_stream (is : List UItem) (h : okList is = true) :
+    Cst.decodeStream (wireList is) = .ok (Wire.valueList is) :=
+  SF.Props.UbjEnc.ubj_spec_roundtrip_stream is h
+
+/-- the relation used is the oracle's -/
+theorem approx_is_oracle (a b : Val) : approx a b = SF.Ops.approxUbj a b := SF.Ubjson.Enc.approx_eq_oracle a b
+
+end SF.PropsUbj.C07
